@@ -282,6 +282,52 @@ def WFReq (h : ReqHead) : Prop :=
 
 instance (h) : Decidable (WFReq h) := by unfold WFReq; exact inferInstance
 
+/-- The statement's "every well-formed request head", method included: RFC 7230 §3.1.1 `method = token`
+(case-sensitive, any token — `PURGE`, `SEARCH`, `get`). `WFReq` is this with the method restricted to the
+eighteen `is_valid_method` accepts. -/
+def WFReqAnyMethod (h : ReqHead) : Prop :=
+  Token h.method ∧
+  h.target ≠ [] ∧ h.target.all isVchar = true ∧
+  (h.ver = .v10 ∨ h.ver = .v11) ∧
+  (requestLine h).length ≤ maxLine ∧
+  h.fields.length ≤ maxFields ∧
+  (∀ f ∈ h.fields, FieldWF f) ∧
+  LangsWF h
+
+instance (h) : Decidable (WFReqAnyMethod h) := by unfold WFReqAnyMethod; exact inferInstance
+
+/-- RFC 7230 §3.2 field-value as written there: `field-vchar = VCHAR / obs-text` — bytes ≥ 0x80 need not be
+UTF-8 (a Latin-1 `Server: caf\xe9` is well-formed). `FieldValue` is this plus `Utf8`. -/
+def FieldValueRfc (v : Bytes) : Prop :=
+  v.all isFieldByte = true ∧ (v.head?.map isOws).getD false = false ∧
+  (v.getLast?.map isOws).getD false = false
+instance (v) : Decidable (FieldValueRfc v) := by unfold FieldValueRfc; exact inferInstance
+
+def FieldWFRfc (f : Field) : Prop :=
+  Token f.name ∧ Ows f.ows1 ∧ Ows f.ows2 ∧ FieldValueRfc f.value ∧ (fieldLine f).length ≤ maxLine
+instance (f) : Decidable (FieldWFRfc f) := by unfold FieldWFRfc; exact inferInstance
+
+/-- The statement's "every well-formed request head" by the RFC grammar alone: any token as method, obs-text in
+field values. -/
+def WFReqRfc (h : ReqHead) : Prop :=
+  Token h.method ∧
+  h.target ≠ [] ∧ h.target.all isVchar = true ∧
+  (h.ver = .v10 ∨ h.ver = .v11) ∧
+  (requestLine h).length ≤ maxLine ∧
+  h.fields.length ≤ maxFields ∧
+  (∀ f ∈ h.fields, FieldWFRfc f) ∧
+  LangsWF h
+instance (h) : Decidable (WFReqRfc h) := by unfold WFReqRfc; exact inferInstance
+
+/-- likewise for responses: obs-text in the reason phrase and in field values -/
+def WFResRfc (h : ResHead) : Prop :=
+  (h.ver = .v10 ∨ h.ver = .v11) ∧
+  h.status.length = 3 ∧ h.status.all isDigitB = true ∧
+  h.reason.all isFieldByte = true ∧
+  h.fields.length ≤ maxFields ∧
+  (∀ f ∈ h.fields, FieldWFRfc f)
+instance (h) : Decidable (WFResRfc h) := by unfold WFResRfc; exact inferInstance
+
 /-- status-line = HTTP-version SP 3DIGIT SP reason-phrase -/
 def WFRes (h : ResHead) : Prop :=
   (h.ver = .v10 ∨ h.ver = .v11) ∧
